@@ -56,6 +56,7 @@ def declare_buffer(U, payload=ANY):
     m.ensures("old(self._waiting_for) <= self._waiting_for")
     m.ensures("forall(k, old(self._waiting_for), self._waiting_for, k in self.fed)", "emitted-only-consecutive-fed-serials")
     m.ensures("not (self._waiting_for in self.fed)", "stops-at-first-gap(nothing-before-its-predecessors)")
+    m.ensures("implies(self._waiting_for > 0, (self._waiting_for - 1) in self.fed)", "last-emitted-serial-was-fed")
     m.ensures("len(yielded) == self._waiting_for - old(self._waiting_for)", "one-item-per-serial")
     m.ensures("forall(t, 0, len(yielded), yielded[t] == self.fed[old(self._waiting_for) + t], trigger=yielded[t])",
               "items-in-ascending-serial-order")
